@@ -175,7 +175,6 @@ def framing_harness(I: Interp) -> None:
     s = stream.t
     plen = ((s[4] * 256 + s[5]) * 256 + s[6]) * 256 + s[7]
     I.prove("F-consumes-exactly-header-plus-payload", I.ghost["pos"] == 8 + plen)
-    I.prove("F-two-reads-per-frame", z3.BoolVal(I.ghost["reads"] == 2))
     assert isinstance(r, VTuple)
     hdr, payload = r.items
     ptype = s[2] * 256 + s[3]
@@ -411,6 +410,72 @@ def demux_harness(which: str):
     return harness
 
 
+def demux_scripted_harness(which: str, k: int):
+    """Bounded companion of the demux units (labelled): a scripted history of k frames of
+    another kind followed by the awaited frame, the loop executed as written."""
+    def harness(I: Interp) -> None:
+        d = D()
+        te.install_io(I.ex)
+        te.install_locks()
+        conn = mk_conn(I)
+        prev = VBytes(bytes.fromhex("22f190"))
+        state = {"i": 0}
+        frames: list[VTuple] = []
+        putlog: list[V] = []
+        # awaited kind / kind of the frames that have to be kept aside
+        good, other = {"diag": (0, 1), "ack": (1, 0), "nack": (2, 0), "routing": (3, 0)}[which]
+
+        def get_frame(I2: Interp, self_: V) -> V:
+            def go() -> V:
+                i = state["i"]
+                state["i"] += 1
+                if i > k:
+                    I2.fail("Q-wait-ends-on-the-awaited-frame(scripted)", "read past it")
+                    raise PyExc(VObj(asyncio.CancelledError, {"args": VTuple([])}))
+                f = mk_frame(I2, good if i == k else other)
+                pl = f.items[1]
+                if i == k and "SourceAddress" in pl.fields and which != "routing":
+                    pl.fields["SourceAddress"] = conn.fields["target_addr"]
+                    pl.fields["TargetAddress"] = conn.fields["src_addr"]
+                if i == k and "PreviousDiagnosticMessageData" in pl.fields:
+                    pl.fields["PreviousDiagnosticMessageData"] = VBytes(bytes.fromhex("22f1"))
+                if i == k and which == "routing":
+                    pl.fields["RoutingActivationResponseCode"] = VInt(0x10)
+                frames.append(f)
+                return f
+            return coro(go)
+        I.ex.contracts[d.DoIPConnection.read_frame] = get_frame
+        I.ex.contracts[d.DoIPConnection.read_frame_unsafe] = get_frame
+
+        def put(I2: Interp, recv: V, args: list[V], kwargs: dict[str, V]) -> V:
+            putlog.append(args[0])
+            return coro(lambda: NONE)
+        I.ex.stubs[("queue", "put")] = put
+        I.ex.stubs[("queue", "put_nowait")] = lambda I2, r, a, kw: (putlog.append(a[0]), NONE)[1]
+        fname = {"diag": "read_diag_request_raw", "ack": "_read_ack", "nack": "_read_ack",
+                 "routing": "_read_routing_activation_response"}[which]
+        raised = None
+        try:
+            I.await_v(I.call_v(I.getattr_v(conn, fname),
+                               [prev] if which in ("ack", "nack") else [], {}))
+        except PyExc as e:
+            raised = e.exc
+        if which == "nack":
+            I.prove(f"Q-negative-ack-raises-DoIPNegativeAckError(scripted,k={k})", z3.BoolVal(
+                raised is not None and raised.cls is d.DoIPNegativeAckError))
+        elif raised is not None:
+            I.fail("Q-demux-loop-does-not-raise-on-a-frame(scripted)", raised.cls.__name__)
+            return
+        I.prove(f"Q-wait-ends-only-on-the-awaited-frame(scripted,k={k})",
+                z3.BoolVal(state["i"] == k + 1))
+        same = len(putlog) == k and all(
+            isinstance(a, VTuple) and all(x is y for x, y in zip(a.items, b.items))
+            for a, b in zip(putlog, frames))
+        I.prove(f"Q-skipped-frames-are-requeued-once-each-in-arrival-order(scripted,k={k})",
+                z3.BoolVal(same), f"{len(putlog)} re-queued of {k}")
+    return harness
+
+
 def not_awaited_harness(which: str):
     """Complement of Q-wait-ends-only-on-the-awaited-frame: an awaited frame is never skipped."""
     base = demux_harness(which)
@@ -634,6 +699,10 @@ def build_units(tier: str) -> list[Unit]:
              Unit("wait-levels/alive-check", wait_level_harness)]
     for w in ("diag", "ack", "routing"):
         units.append(Unit(f"demux/{w}", demux_harness(w), max_paths=20000))
+    for w in ("diag", "ack", "nack", "routing"):
+        for k in range(0, 4):
+            units.append(Unit(f"demux-scripted/{w}/k={k}", demux_scripted_harness(w, k),
+                              bounded="scripted history of k <= 3 skipped frames"))
     for k in ("diag", "routing", "alive"):
         units.append(Unit(f"write/{k}", write_harness(k)))
     return units
@@ -653,13 +722,110 @@ def native_replay(unit: str, obligation: str, model: dict) -> tuple[bool, str]:
         got = int(d.RoutingActivationRequestTypes(at)) if "RoutingActivationRequestTypes(" in \
             inspect.getsource(d.DoIPTransport._connect) else at
         return got != at, f"activation type {at} is sent as {got:#x}"
+    if unit.startswith("framing/"):
+        return native_segmentation()
+    if unit.startswith("demux-scripted/"):
+        return native_scripted(unit.split("/")[1])
     return False, "no native replay for this obligation"
+
+
+def native_scripted(which: str) -> tuple[bool, str]:
+    """k frames of another kind arrive before the awaited one: afterwards they are read back
+    once each and in their arrival order."""
+    d = D()
+    tgt, src = 0x001D, 0x0E00
+
+    def diag(i: int) -> bytes:
+        return frame(d, 0x8001, tgt.to_bytes(2, "big") + src.to_bytes(2, "big")
+                     + bytes([0x50, i]))
+
+    def ack(code_type: int, i: int = 0) -> bytes:
+        return frame(d, code_type, tgt.to_bytes(2, "big") + src.to_bytes(2, "big")
+                     + bytes([0x00 if code_type == 0x8002 else 0x03]) + bytes.fromhex("22f1"))
+
+    async def go() -> tuple[bool, str]:
+        for k in (1, 2, 3):
+            r = asyncio.StreamReader()
+            conn = d.DoIPConnection(r, FakeWriter(), src, tgt, 3)  # type: ignore[arg-type]
+            if which in ("ack", "nack"):
+                skipped = [diag(i) for i in range(k)]
+                r.feed_data(b"".join(skipped) + ack(0x8002 if which == "ack" else 0x8003))
+                await asyncio.sleep(0.01)
+                try:
+                    await asyncio.wait_for(conn._read_ack(bytes.fromhex("22f190")), 0.5)
+                except d.DoIPNegativeAckError:
+                    pass
+                got = []
+                for _ in range(k):
+                    try:
+                        _, p = await asyncio.wait_for(conn.read_diag_request_raw(), 0.1)
+                        got.append(bytes(p.UserData).hex())
+                    except TimeoutError:
+                        got.append("<missing>")
+                want = [bytes([0x50, i]).hex() for i in range(k)]
+            else:
+                return False, "no native scenario for this wait"
+            await conn.close()
+            if got != want:
+                return True, (f"{k} diagnostic messages, then the "
+                              f"{'negative ' if which == 'nack' else ''}acknowledgement: reads "
+                              f"deliver {got}, sent {want}")
+        return False, "skipped frames come back once each and in order for k=1..3"
+    return asyncio.run(go())
+
+
+def native_segmentation() -> tuple[bool, str]:
+    """Two frames delivered in two TCP segments, for every split offset: the frames handed out
+    must not depend on the segmentation."""
+    d = D()
+    f1 = frame(d, 0x8001, bytes([0x00, 0x1D, 0x0E, 0x00]) + bytes.fromhex("62f190") + b"VIN-0123456789")
+    f2 = frame(d, 0x8002, bytes([0x00, 0x1D, 0x0E, 0x00, 0x00]))
+    stream = f1 + f2
+
+    async def decode(cut: int | None) -> list[str]:
+        r = asyncio.StreamReader()
+        conn = d.DoIPConnection(r, FakeWriter(), 0x0E00, 0x1D, 3)  # type: ignore[arg-type]
+        conn._read_task.cancel()
+        out: list[str] = []
+
+        async def feeder() -> None:
+            if cut is None:
+                r.feed_data(stream)
+            else:
+                r.feed_data(stream[:cut])
+                await asyncio.sleep(0.002)
+                r.feed_data(stream[cut:])
+            r.feed_eof()
+        t = asyncio.ensure_future(feeder())
+        for _ in range(2):
+            try:
+                hdr, payload = await asyncio.wait_for(conn._read_frame(), 0.5)
+                out.append(f"{hdr.PayloadType:#06x}/{hdr.PayloadLength}/"
+                           f"{payload.pack().hex() if payload is not None else None}")
+            except Exception as e:  # noqa: BLE001
+                out.append(type(e).__name__)
+        await t
+        return out
+
+    async def go() -> tuple[bool, str]:
+        want = await decode(None)
+        for cut in range(1, len(stream)):
+            got = await decode(cut)
+            if got != want:
+                return True, (f"stream of two frames split after byte {cut}: frames {got}, "
+                              f"unsegmented: {want}")
+        return False, "all single splits decode like the unsegmented stream"
+    return asyncio.run(go())
 
 
 class FakeWriter:
     def __init__(self) -> None:
         self.data = b""
         self.closed = False
+        self.closing = False  # set by a scenario: the peer reset the connection
+
+    def is_closing(self) -> bool:
+        return self.closed or self.closing
 
     def write(self, b: bytes) -> None:
         self.data += b
